@@ -207,8 +207,10 @@ def cbmc_cmd(job, gb, extra=()):
     c += job.get("cbmc_flags", [])
     if job.get("unwind") is not None:
         c += ["--unwind", str(job["unwind"])]
-        if not job.get("no_unwinding_assertions"):      # bounded EXPLORATION (longer executions cut, level must be "bounded")
+        if not job.get("no_unwinding_assertions"):
             c += ["--unwinding-assertions"]
+        else:                                           # bounded EXPLORATION (longer executions cut, level must be "bounded")
+            c += ["--no-unwinding-assertions"]
     for u in job.get("unwindset", []):
         c += ["--unwindset", u]
     if job.get("unwindset") and job.get("unwind") is None and not job.get("no_unwinding_assertions"):
